@@ -258,7 +258,7 @@ func gcReaderOK(bkt *Bucket, r *DataStreamReader, src int) bool {
 }
 
 //@ func (mgr *GCMgr) gc
-//@   props C03 C18
+//@   props C03 C18 C17
 //@   ints math
 //@   nooverflow
 //@   reliable_io
